@@ -528,6 +528,22 @@ func (fr *frame) applySpec(spec *FuncSpec, name string, pnames []string, args []
 		key := f.ghostKey(g.Name, sortOfType(gt), false, "")
 		st.heap = f.hs.write(st.heap, key, v.Tm)
 	}
+	for _, cw := range spec.CountedWhen {
+		g, ok := f.e.specs.ghosts[cw.Ghost]
+		if !ok || len(g.Params) != 0 {
+			f.fail("%s: counted %s: no such scalar ghost", spec.Line, cw.Ghost)
+			continue
+		}
+		cenv := f.newEnv(spec.Pkg, st.heap, pre, vars, rvals)
+		cenv.atCallSite = true
+		cv, err := cenv.evalBool(cw.E)
+		if err != nil {
+			f.fail("%s: counted %s: %v", spec.Line, cw.Src, err)
+			continue
+		}
+		key := f.ghostKey(g.Name, sortInt, false, "")
+		st.heap = f.hs.write(st.heap, key, f.c.define("cnt."+cw.Ghost, sortInt, app("+", f.hs.read(pre, key), ite(cv, "1", "0"))))
+	}
 	post := f.newEnv(spec.Pkg, st.heap, pre, vars, rvals)
 	post.atCallSite = true
 	for _, c := range spec.Ensures {
@@ -2069,6 +2085,15 @@ func (fr *frame) noteTransient(x *ssa.MapUpdate, st *bstate, m, k, dk string) {
 		if !f.e.active(td.Tags) || len(td.Tags) == 0 && f.e.curProp != "" {
 			continue
 		}
+		skip := false
+		for _, ex := range td.Except {
+			if f.fn.Name() == ex {
+				skip = true // the registering function itself; its callers are checked (it is inlined there)
+			}
+		}
+		if skip {
+			continue
+		}
 		for _, n := range td.Fields {
 			if n == fname {
 				f.transients = append(f.transients, transientIns{reach: st.reach, m: m, k: k, dk: dk, label: fname, pos: posStr(f.e.fset, x.Pos()), tags: td.Tags, addr: fr.val(fa), mt: x.Map.Type()})
@@ -2107,5 +2132,55 @@ func (f *FnCtx) publish(v Val) {
 		if lc.ref == v.Tm {
 			lc.published = true
 		}
+	}
+}
+
+// before call send#N assert ...: the pseudo callee "send" names the N-th channel send of
+// the function in source order (a send statement, or a select that has a send case);
+// the assertion must hold whenever that send is about to happen.
+func (fr *frame) sendOrdinal(site ssa.Instruction) int {
+	var list []ssa.Instruction
+	for _, b := range fr.fn.Blocks {
+		for _, in := range b.Instrs {
+			switch x := in.(type) {
+			case *ssa.Send:
+				list = append(list, in)
+			case *ssa.Select:
+				for _, s := range x.States {
+					if s.Dir == types.SendOnly {
+						list = append(list, in)
+						break
+					}
+				}
+			}
+		}
+	}
+	sort.SliceStable(list, func(i, j int) bool { return list[i].Pos() < list[j].Pos() })
+	for i, in := range list {
+		if in == site {
+			return i + 1
+		}
+	}
+	return 0
+}
+
+func (fr *frame) beforeSendAsserts(site ssa.Instruction, st *bstate, taken string) {
+	f := fr.f
+	if fr.spec == nil || len(fr.spec.Before) == 0 || f.dry {
+		return
+	}
+	for _, ba := range fr.spec.Before {
+		if ba.Callee != "send" || !f.e.active(ba.C.Tags) || fr.sendOrdinal(site) != ba.Ordinal {
+			continue
+		}
+		ba.C.used = true
+		env := fr.specEnv(st.heap, fr.oldHeap, nil)
+		env.addVars(fr.localEnvAtInstr(site, st.heap))
+		v, err := env.evalBool(ba.C.E)
+		if err != nil {
+			f.fail("%s: before call send: %v", ba.C.Line, err)
+			continue
+		}
+		f.oblige(st, fmt.Sprintf("%s#before:send#%d:%s", fnShortName(fr.fn), ba.Ordinal, clauseLabel(ba.C)), "assert", ba.C.Tags, implies(taken, v), ba.C.Src, ba.C.Line)
 	}
 }
